@@ -57,6 +57,7 @@ type treeSpec struct {
 	Gen      string `json:"gen,omitempty"`      // "nary:N" | "naryroot:N:root" | "big:N:nodes" | "binary" | "star": use the roster's generator
 	NoAgg    bool   `json:"noagg,omitempty"`    // assembled by hand, aggregates never computed
 	NoRoster bool   `json:"noroster,omitempty"` // Tree.Roster == nil
+	Cut      int    `json:"cut,omitempty"`      // > 0: NewTree on the first Cut nodes (pre-order), AddChild for the rest, NewTree again
 }
 
 type mutation struct {
@@ -158,26 +159,41 @@ func mkTree(ro *onet.Roster, ts treeSpec) *onet.Tree {
 		}
 		panic("bad gen " + ts.Gen)
 	}
+	// the nodes in pre-order, with the pre-order position of their parent
+	n := len(ts.Shape)
+	nodes := make([]*onet.TreeNode, n)
+	parent := make([]int, n)
 	pos := 0
-	var build func() *onet.TreeNode
-	build = func() *onet.TreeNode {
+	var walk func(par int)
+	walk = func(par int) {
 		k := pos
 		pos++
+		parent[k] = par
 		p := ts.Place[k] % len(ro.List)
 		idx := p
 		if k < len(ts.Idx) {
 			idx = ts.Idx[k]
 		}
-		tn := onet.NewTreeNode(idx, ro.List[p])
+		nodes[k] = onet.NewTreeNode(idx, ro.List[p])
 		if k < len(ts.NodeIDs) {
-			tn.ID = onet.TreeNodeID(numUUID(ts.NodeIDs[k]))
+			nodes[k].ID = onet.TreeNodeID(numUUID(ts.NodeIDs[k]))
 		}
 		for c := 0; c < ts.Shape[k]; c++ {
-			tn.AddChild(build())
+			walk(k)
 		}
-		return tn
 	}
-	root := build()
+	walk(-1)
+	root := nodes[0]
+	// children are attached in pre-order, which keeps every node's child order. With Cut > 0
+	// the tree is built in two goes, the way a service extends a tree it already used:
+	// NewTree on the first Cut nodes (a pre-order prefix is closed under parents), AddChild for
+	// the rest, NewTree again on the same root.
+	for k := 1; k < n; k++ {
+		if ts.Cut > 0 && k == ts.Cut {
+			onet.NewTree(ro, root)
+		}
+		nodes[parent[k]].AddChild(nodes[k])
+	}
 	t := onet.NewTree(ro, root)
 	if ts.NoAgg {
 		t = &onet.Tree{ID: t.ID, Roster: ro, Root: root}
@@ -1064,6 +1080,13 @@ func generate(rng *rand.Rand, tier string) []interface{} {
 		}
 		ins = append(ins, input{Kind: "round", Name: "rebuild-" + rebuilds[i%len(rebuilds)], Roster: rosterSpec{Members: seqInts(rn)},
 			Tree: treeSpec{Shape: sh, Place: place, NodeIDs: seqInts(n)}, Rebuild: rebuilds[i%len(rebuilds)]})
+		if n >= 2 {
+			// a tree that was used (NewTree), extended by hand (AddChild) and made into a tree again
+			nx := n + rng.Intn(6)
+			shx := randomShape(rng, nx, i%3)
+			ins = append(ins, input{Kind: "round", Name: "sender-extended", Suite: suitesL[i%2], Roster: rosterSpec{Members: seqInts(nx), Svc: i%4 == 0},
+				Tree: treeSpec{Shape: shx, Place: rng.Perm(nx), NodeIDs: seqInts(nx), Cut: 1 + rng.Intn(nx-1)}})
+		}
 		switch i % 5 {
 		case 0: // RosterIndex recorded by hand does not point at the node's server
 			idx := make([]int, n)
